@@ -100,6 +100,14 @@ func genUDPCase(r *vlib.R, emit func(string)) int {
 				queued++
 			}
 		case k < 8:
+			if r.Chance(1, 4) {
+				// what the kernel will do with the next sendmmsg calls: partial sends, a refusal, a retirement
+				var pl []string
+				for j, m := 0, 1+r.Intn(4); j < m; j++ {
+					pl = append(pl, vlib.Pick(r, []string{"1", "1", "2", "3", "5", "x", "r"}))
+				}
+				e("udp txplan " + strings.Join(pl, ","))
+			}
 			if queued == 0 {
 				continue
 			}
